@@ -1611,6 +1611,11 @@ pub fn world(g: &Generated, ti: usize, rng: &mut Rng, cfg: &Cfg) -> World {
                 twin[0] ^= 0x10; // 0xe0 <-> 0xf0, same network
                 w.args.insert(from_parties[1].clone(), V::Address(twin));
             }
+        } else if from_parties.len() >= 2 && from_parties[0] != from_parties[1] && rng.chance(1, 3) {
+            // ... or the very same account: the withdrawal map cannot hold both amounts (no denotation)
+            if let Some(a) = w.args.get(&from_parties[0]).cloned() {
+                w.args.insert(from_parties[1].clone(), a);
+            }
         }
     }
     let sem = super::sem::Sem::new(&g.prog, &w);
